@@ -200,3 +200,32 @@ fn c17_k3_eager_dequeue() {
     kani::cover!(!live && n0 == 2, "exhausted list falls back to the layer action");
     core::mem::forget(l);
 }
+
+// @harness name=c17_k3_eager_interrupt prop=C17 tier=quick timeout=1800
+// @encodes Layout::dequeue (Press arm with an eager tap-dance in progress, another key pressed), TapDanceEagerState::set_expired
+// @inst Layout<2, 1, u8> with a local one-layer table [a, b]
+// @bounds an eager tap-dance of key (0,1) in progress (symbolic remaining timeout >= 1, 1 tap so far, 2 actions); ANOTHER real key (0,0) is pressed
+// @assumes none beyond the bounds
+// @spec another key ends the count: the other key performs its own action and the dance is marked expired in the layout's state itself (so that the next tap of the dance key starts again at the first action)
+#[kani::proof]
+#[kani::unwind(5)]
+fn c17_k3_eager_interrupt() {
+    let layers: [[[Action<'_, u8>; 2]; 1]; 1] = [[[Action::KeyCode(KeyCode::A), Action::KeyCode(KeyCode::B)]]];
+    let src: [Action<'_, u8>; 2] = [Action::NoOp, Action::NoOp];
+    let a0: Action<'_, u8> = Action::KeyCode(KeyCode::X);
+    let a1: Action<'_, u8> = Action::KeyCode(KeyCode::Y);
+    let acts: [&Action<'_, u8>; 2] = [&a0, &a1];
+    let mut l: Layout<'_, 2, 1, u8> = vk_layout_literal(&src, &layers);
+    let t0: u16 = kani::any();
+    kani::assume(t0 >= 1);
+    l.tap_dance_eager = Some(TapDanceEagerState { coord: (0, 1), actions: &acts, timeout: t0, orig_timeout: 300, num_taps: 1 });
+    l.last_press_tracker.coord = (0, 1);
+    let ev = l.dequeue(Queued { event: Event::Press(0, 0), since: kani::any() });
+    assert!(matches!(ev, CustomEvent::NoEvent));
+    assert!(l.states.len() == 1 && matches!(l.states[0], NormalKey { keycode: KeyCode::A, coord: (0, 0), .. }));
+    match &l.tap_dance_eager {
+        Some(s) => assert!(s.is_expired(), "the interrupted dance must be expired in the layout, not in a copy"),
+        None => {}
+    }
+    core::mem::forget(l);
+}
